@@ -17,8 +17,8 @@ TEXT = {
  'C11': 'Decoder bookkeeping is over sets of indexes; dec_spec reads received positions only (lemma); surplus-set equality is a corollary of the unmechanised M3 (bounded).',
  'C12': 'Accessors, iterators and Drop against the work-space view, for all indexes.',
  'C13': 'Additivity, zero and scalar multiples (homogeneity: right-multiplications of the shift-xor field commute) of enc_high_ref / enc_low_ref proved by induction over layers and chunks, on top of the proved encode == enc_*_ref; every engine kernel is proved to be xor / multiplication by a data-independent constant.',
- 'C14': 'target_feature entry points require cpu_has(f); DefaultEngine::new / eval_poly proved to call them only under the detection result and to pick the best reported ISA.',
- 'C15': 'Primitives proved equal to their reference networks (butterflies, WHT, formal derivative, mod-65535 arithmetic) over a field defined from 0x1002D and the Cantor basis; ifft_ref proved the exact inverse of fft_ref; all five table initialisers proved equal to their definitions (x primitive, pigeonhole, Cantor inverse mechanised); AVX2/SSSE3 kernels proved over a byte-wise model of the intrinsics; closed forms (M1, M4, skew closed form) bounded.',
+ 'C14': 'target_feature entry points require cpu_has(f); DefaultEngine::new / eval_poly proved to call them only under the detection result and to pick the best reported ISA, in both platform views (x86_64: AVX2 > SSSE3 > NoSimd; aarch64: Neon > NoSimd).',
+ 'C15': 'Primitives proved equal to their reference networks over a field defined from 0x1002D and the Cantor basis (field laws, primitivity of x mechanised); fft_ref proved to evaluate the LCH-basis polynomial at skew_delta + i and ifft_ref to be its exact inverse (M1); eval_poly_ref proved to be the sum of logs of (x xor j) over marked j != x modulo 65535 (XOR-convolution theorem, M4); all five tables proved equal to their definitions, skew = log of the normalised subspace polynomials; AVX2/SSSE3 kernels proved over a byte-wise model of the intrinsics, Neon schedules in the aarch64 view.',
  'C17': 'Allocation is not observable by the verifiers: proxy (work buffer identity, proved) plus a counting allocator natively (bounded).',
 }
 checks = []
